@@ -171,6 +171,10 @@ func (c *Client) VerifyParametersAt(ctx context.Context, height int64) (*cmttype
 		pf.RecordBadPeer()
 		return nil, fmt.Errorf("malformed parameters: %w", err)
 	}
+	if proto.Block == nil || proto.Evidence == nil || proto.Validator == nil || proto.Version == nil {
+		pf.RecordBadPeer()
+		return nil, fmt.Errorf("malformed parameters: missing section")
+	}
 	cmtparams := cmttypes.ConsensusParamsFromProto(proto)
 	if err = cmtparams.ValidateBasic(); err != nil {
 		pf.RecordBadPeer()
